@@ -925,6 +925,28 @@ mod real {
             let table = rsub_gsub(n);
             check_table(s, &format!("gsub-rsub-{n}"), &table);
         }
+        // the only user of offset adjustments: name (string offsets are relative to the storage area)
+        for n in [1u16, 3, 40, 400] {
+            use write_fonts::tables::name::{Name, NameRecord};
+            use write_fonts::types::NameId;
+            let records: Vec<NameRecord> = (0..n)
+                .map(|i| NameRecord::new(3, 1, 0x409, NameId::new(256 + i), format!("name string number {i} {}", "x".repeat((i % 7) as usize)).into()))
+                .collect();
+            let table = Name::new(records);
+            if let Some(bytes) = check_table(s, &format!("name-{n}"), &table) {
+                // read back through read-fonts: every string resolves
+                use read_fonts::{FontData, FontRead};
+                let ok = read_fonts::tables::name::Name::read(FontData::new(&bytes))
+                    .map(|t| {
+                        let data = t.string_data();
+                        t.name_record().iter().enumerate().all(|(i, r)| {
+                            r.string(data).map(|st| st.chars().collect::<String>().starts_with(&format!("name string number {i} "))).unwrap_or(false)
+                        })
+                    })
+                    .unwrap_or(false);
+                s.oracle("real:name-strings-read-back", ok, || format!("real-table name-{n}"), || String::new());
+            }
+        }
     }
 }
 
@@ -1029,6 +1051,49 @@ fn run(cfg: &Config, s: &mut Session) {
             }
         }
         check_spec(s, "adjustment-probe", &spec, false);
+    }
+
+    // 5b. adjustment at the 16-bit boundary: `has_overflows` ignores `adjustment` (graph.rs "TODO: account
+    //     for 'whence'"), `serialize` subtracts it.  A parent of size s with one 16-bit link (adjustment a <= s) to
+    //     a child placed right behind it: gate distance s, stored offset s - a.
+    if on("adj") {
+        for s_par in [65_533usize, 65_534, 65_535, 65_536, 65_537, 65_540, 70_000, 131_070] {
+            for a in [0usize, 1, 2, 4, 5, 4_465, 65_535] {
+                for (width, extra) in [(2u8, 0usize), (2, 1), (3, 0), (4, 0)] {
+                    if a > s_par {
+                        continue;
+                    }
+                    let spec = Spec {
+                        nodes: vec![
+                            N { size: s_par, fill: 0x11, links: vec![L { pos: 2, width, target: 1, adj: a as u32 }] },
+                            N { size: 3 + extra, fill: 0x22, links: vec![] },
+                        ],
+                        root: 0,
+                    };
+                    check_spec(s, "adjustment-boundary", &spec, true);
+                    // the layout root, child serialized without asking the gate
+                    let r = run_ops(&spec, &["kahn", "gate", "ser"], &[], true);
+                    s.case("adjustment-boundary", format!("g.ops kahn,gate,ser {}", spec.render(&norm_ids(2), "-", true)), r.resp.clone());
+                    let max = match width { 2 => 0xFFFFusize, 3 => 0xFF_FFFF, _ => 0xFFFF_FFFF };
+                    let gate_overflow = s_par > max;
+                    let offset_fits = s_par - a <= max;
+                    s.oracle("adjustment:serialize-succeeds-iff-stored-offset-fits", r.trapped != offset_fits,
+                        || format!("g.ops kahn,gate,ser {}", spec.describe()), || format!("trapped={} {}", r.trapped, r.panic_msg));
+                    if let Some(out) = &r.bytes {
+                        let w = walk(out, &spec_objmap(&spec), 0);
+                        s.oracle("adjustment:walk", w.is_ok(), || format!("g.ops kahn,gate,ser {}", spec.describe()), || format!("{w:?}"));
+                    }
+                    if gate_overflow && offset_fits {
+                        // completeness only: the gate refuses a layout whose stored offset fits
+                        s.count("adjustment:gate-conservative(refuses-a-fitting-layout)");
+                    } else if gate_overflow == !offset_fits {
+                        s.count("adjustment:gate-exact");
+                    }
+                    // soundness direction, all cases: gate passes => the stored offset fits
+                    s.oracle("adjustment:gate-pass-implies-offset-fits", gate_overflow || offset_fits, || spec.describe(), || String::new());
+                }
+            }
+        }
     }
 
     // 6. real tables that force splitting / promotion
